@@ -77,7 +77,7 @@ def run(pid, tier, seed):
     rng = random.Random(seed)
     sims = pipeline.generate(rep, "Launch_Gen", "Launch_Gen.cfg", 300 if tier == "quick" else 3000, 18, seed, allvars=True)
     jobs = [(st["hist"], st["dirKind"]) for st in sims]
-    jobs += [(rand_script(rng), rng.choice(["temp", "user"])) for _ in range(400 if tier == "quick" else 5000)]
+    jobs += [(rand_script(rng), rng.choice(["temp", "user", "cfg"])) for _ in range(400 if tier == "quick" else 5000)]
     traces, seen = [], set()
     for s, dk in jobs:
         traces.append(la.replay(s, dk))
@@ -88,7 +88,7 @@ def run(pid, tier, seed):
     rep.cov["distinct_nontrivial"] = len(seen)
     rep.cov["rule"] = ("orderings of stdout chunks (with / without the control-listener line), connection outcome (ok / auth failure / "
                        "refused), ownership replies (acknowledged / rejected), progress 10/50/100, timeout, process exit (code or signal), "
-                       "with a temporary or a caller-supplied data directory: TLC -simulate behaviours of Launch_Gen plus seeded random "
+                       "with a temporary data directory, a caller-supplied one (keyword) or one named by the configuration object handed in: TLC -simulate behaviours of Launch_Gen plus seeded random "
                        "orderings biased to reach the ownership dialogue; distinct by hash; non-trivial = a connection attempt plus a "
                        "timeout, an exit or a 100% report")
     ok = pipeline.validate(rep, pid, "Launch", "LaunchTrace", "LaunchTrace.cfg", traces, chunk=200,
